@@ -16,7 +16,10 @@ import math
 
 import numpy as np
 
-from mc import ScopeUnit, FAILED
+import json
+
+from mc import ScopeUnit, HistoryUnit, FAILED
+from mc import ref_dft
 from mc.linalg import dense, deltas
 from mc.state import reset_executors
 
@@ -496,6 +499,135 @@ def run_free_large(case, seed, R):
 
 
 # ---------------------------------------------------------------------------------------------
+# histories: state shared ACROSS calls of different geometry (scratch buffers, per-axis caches).  Nothing is cleared
+# between the events of one history; the laws of the LAST call are judged absolutely (identity matrices, textbook sum)
+
+class Hist:
+    def __init__(self, seed):
+        self.seed = seed
+        self.last = None
+
+
+def h_fresh(init, seed):
+    reset_executors(64)
+    return Hist(seed)
+
+
+def h_canon(st):
+    return json.dumps(st.trace) if hasattr(st, 'trace') else '[]'
+
+
+def _h_apply(st, ev):
+    st.trace = getattr(st, 'trace', []) + [ev]
+    st.last = ev
+    return st
+
+
+FS_EVENTS = [[[12, 12], 2], [[8, 8], 3], [[6, 6], 4], [[24, 24], 1], [[12, 8], 2], [[6, 4], 4], [[24, 16], 1], [[8, 6], 3], [[12, 9], 2], [[16, 12], 1.5]]
+FS_WVL, FS_DX, FS_Z = 0.5, 0.01, 1.5
+
+
+def hfs_events(init, hist, st):
+    return FS_EVENTS
+
+
+def hfs_apply(st, ev, R):
+    shape, Q = tuple(ev[0]), ev[1]
+    x = dense(shape, st.seed, 31)
+    R.call(propagation.angular_spectrum, x, FS_WVL, FS_DX, FS_Z, Q, sig='history:angular_spectrum:exception')
+    w = Wavefront(x.copy(), FS_WVL, FS_DX, 'pupil')
+    R.call(w.free_space, -FS_Z, Q, sig='history:Wavefront.free_space:exception')
+    return _h_apply(st, ev)
+
+
+def hfs_check(st, init, hist, R):
+    if st.last is None:
+        return
+    si, Q = tuple(st.last[0]), st.last[1]
+    so = tuple(math.ceil(s * Q) for s in si)
+    n = si[0] * si[1]
+    eps = eps_of(64)
+    k2 = sum((np.max(np.abs(np.fft.fftfreq(s, FS_DX)))) ** 2 for s in so)
+    t = K_FS * eps * (1 + 2 * np.pi * (FS_WVL / 1e3) * FS_Z * k2)
+    after = f'after {hist[:-1]}' if len(hist) > 1 else 'in a fresh state'
+    E = np.zeros((so[0] * so[1], n))
+    E[embed_index(si, so), np.arange(n)] = 1
+    qc = 'Q=1' if Q == 1 else 'padded'
+    A0 = op(R, lambda a: propagation.angular_spectrum(a, FS_WVL, FS_DX, 0.0, Q), si, f'history:angular_spectrum:{qc}', complex, so)   # noqa
+    if A0 is not None:
+        R.expect_close(A0, E.astype(complex), K_FS * eps, f'history:angular_spectrum:z=0:{qc}', f'AS(0, Q={Q}) on {si} is not the zero-padded input {after}')
+    Az = op(R, lambda a: propagation.angular_spectrum(a, FS_WVL, FS_DX, FS_Z, Q), si, f'history:angular_spectrum:{qc}', complex, so)   # noqa
+    if Az is not None:
+        expect_identity(R, gram(Az), t, f'history:angular_spectrum:energy:{qc}', f'A^H A != I for AS(z={FS_Z}, Q={Q}) on {si} {after}')
+        cols = []
+        for k in range(n):
+            b = R.call(propagation.angular_spectrum, Az[:, k].reshape(so), FS_WVL, FS_DX, -FS_Z, 1, sig='history:angular_spectrum:exception')
+            if b is FAILED or np.shape(b) != so:
+                cols = None
+                break
+            cols.append(np.asarray(b).ravel())
+        if cols is not None:
+            R.expect_close(np.stack(cols, axis=1), E.astype(complex), t, f'history:angular_spectrum:inverse:{qc}', f'AS(-z, 1) AS(z, Q={Q}) on {si} is not the zero-padded input {after}')
+    x = dense(si, st.seed, 33)
+    w = Wavefront(x.copy(), FS_WVL, FS_DX, 'pupil')
+    o = R.call(w.free_space, FS_Z, Q)
+    if o is not FAILED and Az is not None:
+        R.expect_close(getattr(o, 'data', None), (Az @ x.ravel()).reshape(so), t * max(1.0, float(np.linalg.norm(x))), f'history:Wavefront.free_space:{qc}',
+                       f'Wavefront.free_space(dz, Q={Q}) on {si} differs from the operator matrix {after}')
+    R.nontrivial(len(hist) > 1)
+    R.outcome(f'free:{qc}')
+
+
+BAND_SHAPES = [[8, 8], [5, 8], [8, 5], [5, 5]]
+BAND_EVENTS = [[m, s, q] for m in ('mdft', 'czt') for q in (2, [2, 3]) for s in BAND_SHAPES]
+
+
+def hb_events(init, hist, st):
+    return BAND_EVENTS
+
+
+def _band_geom(ev):
+    method, n, q = ev[0], tuple(ev[1]), ev[2]
+    Q = (float(q), float(q)) if not isinstance(q, list) else (float(q[0]), float(q[1]))
+    N = (int(round(n[0] * Q[0])), int(round(n[1] * Q[1])))
+    Qarg = q if not isinstance(q, list) else tuple(q)
+    return method, n, N, Q, Qarg
+
+
+def hb_apply(st, ev, R):
+    method, n, N, Q, Qarg = _band_geom(ev)
+    x = dense(n, st.seed, 35)
+    y = R.call(engine(method, True), x, Qarg, N, sig=f'history:{ENAME[(method, True)]}:exception')
+    if y is not FAILED:
+        R.call(engine(method, False), y, 1, n, sig=f'history:{ENAME[(method, False)]}:exception')
+    R.call(engine(method, False), x, Qarg, N, sig=f'history:{ENAME[(method, False)]}:exception')
+    return _h_apply(st, ev)
+
+
+def hb_check(st, init, hist, R):
+    if st.last is None:
+        return
+    method, n, N, Q, Qarg = _band_geom(st.last)
+    tol = K_TOL * eps_of(64)
+    after = f'after {hist[:-1]}' if len(hist) > 1 else 'in a fresh state'
+    cell = f'{sqc(n)}:{"Q=scalar" if Q[0] == Q[1] else "Q=per-axis"}'
+    for fwd in (True, False):
+        f1, f2 = engine(method, fwd), engine(method, not fwd)
+        n1, n2 = ENAME[(method, fwd)], ENAME[(method, not fwd)]
+        A = op(R, lambda a: f1(a, Qarg, N), n, f'history:{n1}:{cell}', complex, N)   # noqa
+        if A is None:
+            continue
+        ok, msg, err = ref_dft.compare_operator(A, ref_dft.dft2_operator(n, N, Q, (0, 0), fwd), False, tol)
+        R.expect(ok, f'history:{n1}:textbook:{cell}', f'{n1}({n} -> {N}, Q={Qarg}) vs the textbook sum {after}: {msg}')
+        expect_identity(R, gram(A), tol, f'history:{n1}:band-complete:energy:{cell}', f'{n1}({n} -> {N}, Q={Qarg}): A^H A != I on the full band {after}')
+        B = op(R, lambda a: f2(a, 1, n), N, f'history:{n2}:return:{cell}', complex, n)   # noqa
+        if B is not None:
+            expect_identity(R, B @ A, tol, f'history:{n2}({n1}):band-complete:{cell}', f'{n2}({n1}(x, Q={Qarg}, {N}), 1, {n}) != x {after}')
+    R.nontrivial(len(hist) > 1)
+    R.outcome(f'band:{method}')
+
+
+# ---------------------------------------------------------------------------------------------
 
 def plan(tier, seed):
     B = 6 if tier == 'quick' else 9
@@ -532,6 +664,13 @@ def plan(tier, seed):
                   f'every shape in [1..{Bf}]^2 x wvl in {{0.5,1.55}} x dx in {{0.01,0.25}} x precision {{64,32}}; inside every case z ranges over {ZS}, all 16 ordered pairs (z1,z2), all sums and negations: '
                   '|tf| = 1, tf(0) = 1, tf(z1) tf(z2) = tf(z1+z2) on the grid and the doubled grid; operator matrices of angular_spectrum with Q=1 and Q=2 (padding form): AS(0) = id / zero padding, A^H A = I, AS(-z) AS(z) = I, '
                   'AS(z2) AS(z1) = AS(z1+z2) for every ordered pair; tf= form, Wavefront.free_space (dz, Q, tf) on a dense field: value, energy, inverse, metadata; tolerance 2e2*eps*(1 + largest kernel phase)', reset=rs),
+        HistoryUnit('free_space_history', [{}], h_fresh, hfs_events, hfs_apply, hfs_check, h_canon, 2,
+                    f'every history of length <= 2 over the call alphabet (shape, Q) in {FS_EVENTS} -- DIFFERENT unpadded shapes that share a padded working shape ((24,24), (24,16), (24,18)), smaller after larger and larger after smaller, '
+                    'square and not -- of angular_spectrum + Wavefront.free_space on a dense field, nothing cleared in between; in every state the LAST call\'s operator laws are judged absolutely: AS(0,Q) = zero padding, A^H A = I, '
+                    'AS(-z,1) AS(z,Q) = zero padding (operator matrices from all complex deltas), Wavefront.free_space = operator @ dense'),
+        HistoryUnit('band_complete_history', [{}], h_fresh, hb_events, hb_apply, hb_check, h_canon, 2,
+                    f'every history of length <= 2 over {{mdft, czt}} x Q in {{2, (2,3)}} x shapes {BAND_SHAPES} (shapes that share ONE axis\' parameters with a different partner axis) on the SHARED module-level executors, no clear() in between; '
+                    'an event runs forward, return and inverse-first transforms of a dense field; in every state the LAST geometry\'s operators (all complex deltas, both orders) must equal the textbook sum, satisfy A^H A = I on the full band and return o forward = I'),
         ScopeUnit('fft_route_large', fl_cases, run_fft_large,
                   f'threshold alphabet, NOT closed over the data dimension: every shape with both sides in {sides} at Q=1 and both sides in {small_sides} at Q=2 (every parity and residue mod 4 on each axis, '
                   'array sizes below and above 128*128 and 256*256) x precision {64,32} x 4 probe fields (impulse at the origin sample, at both far corners, seeded dense): energy of focus / unfocus, '
